@@ -218,6 +218,7 @@ type world struct {
 	root      common.Hash
 	height    uint64
 	contracts []string
+	suicidal  []string // deployed contracts whose runtime is a bare SELFDESTRUCT(beneficiary)
 	nonces    map[int]uint64
 }
 
@@ -238,6 +239,7 @@ func universe() []string {
 func genBlock(t *rapid.T, w *world, salt string, label string) ([]*types.Transaction, []blockgen.Tx) {
 	n := rapid.IntRange(1, 10).Draw(t, label+"_nTx")
 	var out []blockgen.Tx
+	blockgen.ExtraTargets = w.contracts
 	for i := 0; i < n; i++ {
 		src := rapid.IntRange(0, 3).Draw(t, "src")
 		w.nonces[src]++
@@ -269,6 +271,23 @@ func genBlock(t *rapid.T, w *world, salt string, label string) ([]*types.Transac
 		if !dup {
 			out = append(out, tx)
 		}
+	}
+	// a contract that self-destructs when called, called and paid (without running code) in the same block, by
+	// different senders so that the executor's order decides which comes first
+	if len(w.suicidal) > 0 && rapid.IntRange(0, 2).Draw(t, label+"_paySuicided") == 0 {
+		c := rapid.SampledFrom(w.suicidal).Draw(t, label+"_suicidal")
+		a, b := rapid.IntRange(0, 3).Draw(t, label+"_caller"), rapid.IntRange(0, 3).Draw(t, label+"_payer")
+		w.nonces[a]++
+		ka := txgen.K(a)
+		call := txgen.Contract(ka, ka.Addr, c, "0x", rapid.SampledFrom([]string{"0", "1"}).Draw(t, label+"_callValue"), "3000000", "1000000000", w.nonces[a], fmt.Sprintf("%s-%s-sdcall", salt, label))
+		out = append(out, blockgen.Tx{Tx: call, Kind: "contract_call", Desc: fmt.Sprintf("call(K%d->selfdestructor %s)", a, c[:10])})
+		for i, n := 0, rapid.IntRange(1, 2).Draw(t, label+"_nPay"); i < n; i++ {
+			w.nonces[b]++
+			kb := txgen.K(b)
+			pay := txgen.Transfer(kb.Addr, kb, [][2]string{{c, rapid.SampledFrom([]string{"1", "0.5", "7"}).Draw(t, label+"_payAmount")}}, w.nonces[b], fmt.Sprintf("%s-%s-sdpay%d", salt, label, i))
+			out = append(out, blockgen.Tx{Tx: pay, Kind: "transfer", Desc: fmt.Sprintf("transfer(K%d->selfdestructor %s)", b, c[:10])})
+		}
+		stats.Class("block:selfdestructor_called_and_paid")
 	}
 	var txs []*types.Transaction
 	for _, x := range out {
@@ -313,9 +332,16 @@ func TestBlockExecutionIsDeterministic(t *testing.T) {
 			b1 = append(b1, txgen.Transfer(txgen.Faucets[0], nil, [][2]string{{blockgen.Addr(i), amt}}, uint64(i+1), fmt.Sprintf("%s-f%d", salt, i)))
 		}
 		nDeploy := rapid.IntRange(0, 3).Draw(t, "nDeploy")
+		suicidalDeploys := map[common.Hash]bool{}
 		for i := 0; i < nDeploy; i++ {
 			rt, _ := blockgen.GenRuntime(t, universe(), fmt.Sprintf("dep%d", i))
-			b1 = append(b1, txgen.Contract(nil, txgen.Faucets[1], "", "0x"+fmt.Sprintf("%x", blockgen.InitCodeFor(rt)), "0", "3000000", "1000000000", uint64(i+1), fmt.Sprintf("%s-d%d", salt, i)))
+			bare := rapid.IntRange(0, 2).Draw(t, fmt.Sprintf("bareSelfdestruct%d", i)) == 0
+			if bare {
+				rt = (&blockgen.Asm{}).PushAddr(blockgen.Addr(rapid.IntRange(0, 3).Draw(t, "beneficiary"))).Op(blockgen.SELFDESTRUCT).Bytes()
+			}
+			dtx := txgen.Contract(nil, txgen.Faucets[1], "", "0x"+fmt.Sprintf("%x", blockgen.InitCodeFor(rt)), "0", "3000000", "1000000000", uint64(i+1), fmt.Sprintf("%s-d%d", salt, i))
+			suicidalDeploys[dtx.Hash] = bare
+			b1 = append(b1, dtx)
 		}
 		unknownGroup := []byte("no-such-group")
 		genesisGroup := boot.Groups().LastGroup().Id
@@ -328,6 +354,9 @@ func TestBlockExecutionIsDeterministic(t *testing.T) {
 		for _, r := range r1.Receipts {
 			if (r.ContractAddress != common.Address{}) && r.Status == types.ReceiptStatusSuccessful {
 				w.contracts = append(w.contracts, r.ContractAddress.GetHexString())
+				if suicidalDeploys[r.TxHash] {
+					w.suicidal = append(w.suicidal, r.ContractAddress.GetHexString())
+				}
 			}
 		}
 		root, err := boot.Persist(r1.State)
